@@ -385,7 +385,7 @@ def shards(tier):
 def authentic_run(m):
     result, exc, over = m.run(lambda req, resp, entry: resp)
     if exc is not None or over is not None or m.last is None:
-        raise world.HarnessError("authentic exchange of seed %r failed: %r %r" % (m.seed, exc, over))
+        raise world.ScenarioUnavailable("authentic exchange of seed %r failed: %r %r" % (m.seed, exc, over))
     return result, m.last["authentic"]
 
 
